@@ -348,5 +348,5 @@ for _c in pc.CARRIERS:
             CELLS.append(Cell(f'P1.{_c.id}.{_op}[{_k}]' + ('.trivia_false' if _tf else ''), _mk_tok(_c.id, _op, _k, _tf), 'P', pc.FN_EDIT + FNT,
                               f'carrier {_c.id} (comments around the elements); op {_op}[{_k}] with symbolic ints over Z; trivia={"(False, False)" if _tf else "default"}; '
                               'tokenize-based accounting of COMMENT/NAME/NUMBER/STRING tokens and byte-identity of lines outside the container',
-                              tier='quick' if _c.id in _QC and (_op, _k, _tf) in (('put_slice', 0, False), ('put_slice', 2, True), ('put_slice', 0, True)) else 'thorough',
+                              tier='quick' if _c.id in _QC and ((_op, _k, _tf) in (('put_slice', 0, False), ('put_slice', 2, True), ('put_slice', 0, True)) or (_c.id in ('list4c', 'decos') and (_op, _k, _tf) == ('put_slice', 2, False))) else 'thorough',
                               budget=600, per_path=60, out='alignment aesthetics of multi-line slices (unspecified)', reset=pc.reset_globals))
